@@ -66,6 +66,21 @@ theorem selector_indices (sel : Option Selector) (n : Nat) (h : selOk sel) :
       have h2 := TD.C15.sample_shape n s h
       exact ⟨TD.C15.sampleIndices n s, TD.C15.sampleCount n s, rfl, h2.2.2.1, h1.2.symm⟩
 
+/-- one selector OBJECT applied, one after the other, to frame arrays of the lengths `ns` (as `ToLAS` does with one
+`--frame-slice` across frame types): as coded a `Slice` holds only the builtin `slice` and a `Sample` only its size —
+nothing is remembered from one length to the next -/
+def applyAll (sel : Option Selector) (ns : List Nat) : List (Except Err (List Nat × Nat)) := ns.map (selIndices sel)
+
+/-- **Selection is a function of (selector value, n) only**: whatever lengths the same selector object was applied to
+before (shorter, longer, any number of times), the indexes and count it yields for length `n` are `selIndices sel n`
+— with `selector_indices`/`slice_selects_python`, Python slicing of `range(n)`. -/
+theorem selector_reuse_stateless (sel : Option Selector) (before after : List Nat) (n : Nat) :
+    (applyAll sel (before ++ n :: after))[before.length]? = some (selIndices sel n) := by
+  simp [applyAll]
+
+example : (applyAll (some (.slice none none (some (-1)))) ([2] ++ 5 :: []))[[2].length]? = some (.ok ([4, 3, 2, 1, 0], 5)) := by
+  rw [selector_reuse_stateless]; rfl
+
 /-- **Sub-selection commutes, for every prior storage.**  Let the position map of the frame type point at the frame
 records holding `rows` (`fetchOk`), let `arrs` be *any* storage with one array per channel (whatever earlier calls
 left there), `sel` any selector and `chans` any channel subset.  Then the selector yields indexes `idx` inside the frame
